@@ -1,9 +1,12 @@
 #!/bin/bash
-# apply every kept seed to /repo in turn, run the checks its meta.json names, report; /repo is restored after each
-cd /verif
+# apply every kept seed to the repository under test in turn, run the checks its meta.json names, report; the
+# repository is restored after each. Works on /verif + /repo, or inside a `vp run --with-repo` snapshot
+# (VERIF_REPO=$VP_RUN_REPO).
+here="$(cd "$(dirname "$0")/.." && pwd)"
+cd "$here"
 for d in seeded/*/; do
   n=$(basename $d)
   ids=$(python3 -c "import json; print(' '.join(json.load(open('$d/meta.json'))['checks_that_report_it']))")
-  r=$(tools/try_seed.sh /verif/$d/patch.diff $ids 2>&1 | grep -E "^FIRED|does not apply|dirty" | head -1)
+  r=$(tools/try_seed.sh $here/$d/patch.diff $ids 2>&1 | grep -E "^FIRED|does not apply|dirty" | head -1)
   echo "$n [$ids] => $r"
 done
